@@ -293,7 +293,9 @@ Definition copy_header_step (dst : hdr) (kv : bytes * list bytes) : hdr :=
 Definition copy_header (dst src : hdr) : hdr := fold_left copy_header_step src dst.
 
 Record bresp := { b_status : N; b_hdr : hdr; b_announced : list bytes; b_trailers : hdr }.
-(* final res.Trailer: announced keys (nil when never sent) overlaid with what arrived *)
+(* final res.Trailer: announced keys (nil when never sent) overlaid with what arrived; all of it
+   reaches the client: announced trailers through the Trailer header + early flush, unannounced
+   ones through http.TrailerPrefix after a flush that keeps a short body from getting a Content-Length *)
 Definition final_trailers (b : bresp) : hdr :=
   fold_left (fun t kv => hput t (fst kv) (snd kv)) (b_trailers b) (map (fun k => (k, [])) (b_announced b)).
 Definition nodup_keys (l : list bytes) : list bytes :=
